@@ -456,3 +456,57 @@ func (c *Ctx) errorUseOK(call *ssa.Call, g *ssa.Function, seen map[*ssa.Function
 	}
 	return false, c.name(g) + " at " + c.P.Pos(call.Pos())
 }
+
+// recursionDepthPaired: every EnterRecursion is undone by LeaveRecursion on every path.
+func (c *Ctx) recursionDepthPaired(rule string) {
+	P, R := c.P, c.R
+	R.Explain(rule, "T-PAIR for the parser's nesting counter: in every function that calls Parser.EnterRecursion, each path from the successful Enter to a return - error returns included - passes LeaveRecursion (deferred or explicit).  The parser object lives as long as the connection, so a level that is not given back on an error path is lost for the rest of the session and, after enough refused commands, valid nested commands are answered BAD.")
+	n := 0
+	for _, f := range c.productFuncs() {
+		for _, cs := range engine.Calls(f) {
+			sc := cs.Common().StaticCallee()
+			if sc == nil || engine.ShortName(sc) != "EnterRecursion" || cs.Instr.Parent() != f {
+				continue
+			}
+			call, ok := cs.Instr.(*ssa.Call)
+			if !ok {
+				continue
+			}
+			n++
+			key := c.name(f) + "|EnterRecursion"
+			// success edge of Enter
+			var start *ssa.BasicBlock
+			for _, r := range *call.Referrers() {
+				if bin, ok := r.(*ssa.BinOp); ok && (engine.IsNilConst(bin.Y) || engine.IsNilConst(bin.X)) {
+					for _, r2 := range *bin.Referrers() {
+						if iff, ok := r2.(*ssa.If); ok {
+							ix := 1
+							if bin.Op == token.EQL {
+								ix = 0
+							}
+							start = iff.Block().Succs[ix]
+						}
+					}
+				}
+			}
+			if start == nil {
+				R.Fail(rule, key, P.Pos(call.Pos()), "the error of EnterRecursion is not checked")
+				continue
+			}
+			cut := map[ssa.Instruction]bool{}
+			for _, cs2 := range engine.Calls(f) {
+				if sc2 := cs2.Common().StaticCallee(); sc2 != nil && engine.ShortName(sc2) == "LeaveRecursion" && cs2.Instr.Parent() == f {
+					cut[cs2.Instr] = true
+				}
+			}
+			bad := ""
+			for _, ret := range engine.Returns(f) {
+				if engine.ReachesAvoidingFrom(start, 0, ret, cut, nil) {
+					bad = P.Pos(ret.Pos())
+				}
+			}
+			R.Check(len(cut) > 0 && bad == "", rule, key, P.Pos(call.Pos()), "every path after a successful EnterRecursion leaves it again", "a return ("+bad+") is reachable after a successful EnterRecursion without LeaveRecursion: the nesting level leaks for the lifetime of the connection's parser and later valid commands are refused as 'nesting too deep'")
+		}
+	}
+	R.Min(rule, "EnterRecursion call sites", n, 2)
+}
